@@ -6,9 +6,15 @@ import (
 	"sort"
 )
 
-const relTol = 1e-9
+const (
+	relTol = 1e-9
+	// absTol: results of cancelling computations (deriv, stddev of a constant series) come out
+	// as 0 in one implementation and as 1e-17 in another; both are floating-point rounding
+	absTol = 1e-12
+)
 
-// valuesEqual: NaN = NaN, infinities exact, otherwise relative 1e-9.
+// valuesEqual: NaN = NaN, infinities exact, otherwise relative 1e-9 (or both within 1e-12 of
+// each other near zero).
 func valuesEqual(a, b float64) bool {
 	an, bn := math.IsNaN(a), math.IsNaN(b)
 	if an || bn {
@@ -20,7 +26,8 @@ func valuesEqual(a, b float64) bool {
 	if a == b {
 		return true
 	}
-	return math.Abs(a-b) <= relTol*math.Max(math.Abs(a), math.Abs(b))
+	d := math.Abs(a - b)
+	return d <= relTol*math.Max(math.Abs(a), math.Abs(b)) || d <= absTol
 }
 
 func valueDiffKind(ref, got float64) string {
